@@ -165,7 +165,7 @@ func oneCase(c *kit.Case, p params) {
 		xc = randomXlatCfg(rng, p.NumReqs)
 		cfg = xc.stackCfg()
 	} else {
-		cfg = sim.RandomStackCfg(rng, sim.GenOpts{NumReqs: p.NumReqs, AllowDRAM: rng.Intn(3) == 0, AllowBanked: true, MaxDrivers: 3})
+		cfg = sim.RandomStackCfg(rng, sim.GenOpts{NumReqs: p.NumReqs, AllowDRAM: rng.Intn(3) == 0, AllowBanked: true, MaxDrivers: 3, RspStall: true})
 		cfg.WithCtrl = true
 		cfg.Tracing = rng.Intn(2) == 0
 		nUnits = len(cfg.Levels) + max(cfg.Mem.Count, 1)
